@@ -12,6 +12,7 @@ import subprocess
 
 from .. import framework as fw
 from .. import odelib as ol
+from .. import ratelib as rl
 from ..impl import Species, ReactionType, reset_globals
 from naunet.reactions.reaction import Reaction
 from naunet.reactions.kidareaction import KIDAReaction
@@ -208,11 +209,55 @@ def compile_check(exprs):
     return bad
 
 
+def network_level(res, model, rng, n):
+    """the coefficient written for reaction i of a NETWORK is reaction i's own law: groups of reactions with the same
+    reactants, products and window (they compare equal) but different coefficients, types and source formats, through
+    TemplateLoader._assign_rates (the list EvalRates is rendered from)"""
+    from naunet.templateloader import TemplateLoader
+    emitting = [(f, c, sp) for f, c, sp in cases() if (f, c) in LAWS]
+    for k in range(n):
+        group = []
+        f0 = rng.choice(["kida", "umist", "naunet", "leeds", "uclchem"])
+        for _ in range(rng.randint(2, 4)):
+            f, c, sp = rng.choice([x for x in emitting if x[0] == f0 or rng.random() < 0.3])
+            cls = [rng.choice(CLASSES[:2] if rng.random() < 0.8 else CLASSES) for _ in range(3)]
+            mag = [abs(rng.choice(MAGS)[j]) * rng.choice([1.0, 1.5, 2.0, 7.0]) for j in range(3)]
+            group.append((f, c, sp, cls, mag))
+        objs = [make(f, c, value(cl[0], mg[0]), value(cl[1], mg[1]), value(cl[2], mg[2]), sp) for f, c, sp, cl, mg in group]
+        case = {"kind": "c05-network", "group": [[f, c, sp, cl, [repr(x) for x in mg]] for f, c, sp, cl, mg in group]}
+        try:
+            sts = TemplateLoader("cvode", "dense", "cpu")._assign_rates("k", objs, [])
+        except Exception as e:
+            res.violation("oracle", f"_assign_rates fails on a group of gas-phase reactions: {e!r}", case)
+            continue
+        for i, ((f, c, sp, cl, mg), o, st) in enumerate(zip(group, objs, sts)):
+            try:
+                g, sym, ix, expr = rl.parse_assign(st)
+            except ValueError as e:
+                res.violation("oracle", f"assignment {i}: {e}", case)
+                break
+            own = o.rateexpr()
+            a, b, c_ = value(cl[0], mg[0]), value(cl[1], mg[1]), value(cl[2], mg[2])
+            if sym != "k" or ix != i or expr != own:
+                res.violation("oracle", f"reaction {i} of the network ({f} type {c}, a={a!r} b={b!r} c={c_!r}) gets the coefficient "
+                                        f"{sym}[{ix}] = {expr!r}; its own law is {own!r}", case)
+                break
+            if model is not None:
+                m = model.call("rate.emit", f, "none" if c is None else c, cl[0], cl[1], cl[2], [magtext(x) for x in mg], shield_text(f, c, sp))
+                if m[0] != "ok" or m[1] != expr:
+                    res.corr_disagreements += 1
+                    res.violation("correspondence", f"network-level coefficient of reaction {i} ({f} type {c}): implementation {expr!r} vs model {m[:2]}", case)
+                    break
+        res.count("network-level groups")
+        res.case(("c05-network", k, repr(case["group"])), nontrivial=True)
+
+
 def run(res, info):
     rng = random.Random(res.seed * 7919 + 5)
     model = fw.Model() if info["ok"] else None
     res.rule = ("every gas-phase (format, type/formula/rtype) incl. refused ones x all 64 sign/zero classes (+, -, 0.0, -0.0) of (alpha, beta, gamma) "
-                "x magnitude shapes (ordinary, integer-valued, 1e+300, 5e-324, long mantissa); non-trivial = an expression is emitted")
+                "x magnitude shapes (ordinary, integer-valued, 1e+300, 5e-324, long mantissa); groups of 2-4 reactions that compare equal "
+                "(same species and window) but differ in coefficients, type and source format, through _assign_rates; non-trivial = an expression is emitted")
     res.assumptions = ["coefficients are finite floats (inf/nan excluded)"]
     nmag = 2 if res.tier == "quick" else len(MAGS)
     to_compile = []
@@ -256,6 +301,7 @@ def run(res, info):
                 elif (fmt, code) in LAWS:
                     res.violation("oracle", f"{fmt} type {code}: refused although the database defines its law", case)
                 res.case(("c05", fmt, code, sp, ka, kb, kc, mi), sample={"format": fmt, "code": code, "coeffs": [a, b, c], "text": i[1]}, nontrivial=i[0] == "ok")
+    network_level(res, model, rng, 60 if res.tier == "quick" else 1500)
     bad = compile_check([t for t, _ in to_compile])
     res.count("compiled expressions", len(to_compile))
     for idx, msg in bad[:5]:
